@@ -35,7 +35,7 @@ def k1(ctx, kr):
     def entry(M):
         env.sent.clear(); env.json_ok.clear()
         meth, v, ids = LSP.sym_method(M, 'method', list(LSP.REQ_METHODS))
-        st['v'] = v; st['ids'] = ids
+        st['v'] = v; st['ids'] = ids; st['meth'] = meth
         ub = M.fresh_bool('uri_has_file_scheme'); st['ub'] = ub
         st['uri'] = 'file:///d.st' if M.branch(ub) else 'untitled:Untitled-1'
         env.params['SemanticTokensFullRequest'] = lambda: LSP.mkstruct(P, 'SemanticTokensParams', text_document=LSP.mkstruct(P, 'TextDocumentIdentifier', uri=Agg('Url', [Str(st['uri'])])))
@@ -50,6 +50,9 @@ def k1(ctx, kr):
         m = s.model(); kr.nontrivial += 1
         val = m.eval(st['v'], True).as_long()
         mname = [LSP.REQ_METHODS[t] for t, i in st['ids'].items() if i.as_long() == val]
+        other = None
+        if not mname:
+            other = ''.join(chr(x if isinstance(x, int) else m.eval(x, True).as_long()) for x in st['meth'].b)      # the unknown method name of this path
         mname = mname[0] if mname else 'some/otherMethod'
         jsonbad = [t for t, b in env.json_ok.items() if not z3.is_true(m.eval(b, True))]
         if mname == 'shutdown': return            # intercepted by run() before handle_request; answered by handle_shutdown (K3)
@@ -62,7 +65,8 @@ def k1(ctx, kr):
         ids = [simp(r.f[0].f[0].f[0]) for r in resp]
         if len(resp) != 1 or ids != [7]:
             role = 'C12/K1/unanswered/unknown-method' if mname == 'some/otherMethod' else 'C12/K1/responses/%s/%d%s' % (mname, len(resp), '/non-file-uri' if nonfile else '')
-            _add(kr, role, 'a request for method %s (document %s) gets %d responses (ids %s) instead of exactly one with its id' % (mname, st['uri'], len(resp), ids), wit, ('lsp_request', (mname, False, nonfile)))
+            if other is not None: wit['method'] = other
+            _add(kr, role, 'a request for method %s (document %s) gets %d responses (ids %s) instead of exactly one with its id' % (other or mname, st['uri'], len(resp), ids), wit, ('lsp_request', (other or mname, False, nonfile)))
         elif len(kr.validate) < 2: kr.validate.append(('lsp_request', (mname, False)))
         if len(kr.samples) < 4: kr.samples.append({'request': wit, 'responses': len(resp)})
     M.explore(entry, on_path)
